@@ -236,6 +236,56 @@ impl Report {
         }
     }
 
+    /// Serialise the counters of a report produced in another process (C12's generated crates).
+    pub fn dump_json(&self) -> Value {
+        json!({
+            "evaluations": self.evaluations,
+            "nontrivial_total": self.nontrivial_total,
+            "distinct": self.distinct_count(),
+            "samples": self.samples,
+            "violation_count": self.violation_count,
+            "violations": self.violations.iter().map(|(k, (w, r))| json!({"signature": k, "what": w, "replay": r})).collect::<Vec<_>>(),
+            "inconclusive": self.inconclusive,
+            "counters": self.counters,
+            "sets": self.sets.iter().map(|(k, s)| (k.clone(), s.iter().cloned().collect::<Vec<_>>())).collect::<BTreeMap<_, _>>(),
+            "extra": Value::Object(self.extra.clone()),
+        })
+    }
+
+    /// Merge a dump; distinct cases of another process are distinct from ours by construction (other struct types).
+    pub fn absorb_json(&mut self, v: &Value) {
+        self.evaluations += v["evaluations"].as_u64().unwrap_or(0);
+        self.nontrivial_total += v["nontrivial_total"].as_u64().unwrap_or(0);
+        self.distinct_enumerated += v["distinct"].as_u64().unwrap_or(0);
+        for s in v["samples"].as_array().cloned().unwrap_or_default() {
+            if self.samples.len() < self.max_samples + 4 {
+                self.samples.push(s);
+            }
+        }
+        self.violation_count += v["violation_count"].as_u64().unwrap_or(0);
+        for x in v["violations"].as_array().cloned().unwrap_or_default() {
+            let sig = x["signature"].as_str().unwrap_or("?").to_string();
+            if self.violations.len() < 64 {
+                self.violations.entry(sig).or_insert((x["what"].as_str().unwrap_or("").to_string(), x["replay"].clone()));
+            }
+        }
+        for i in v["inconclusive"].as_array().cloned().unwrap_or_default() {
+            self.inconclusive(i.as_str().unwrap_or("?"));
+        }
+        if let Some(m) = v["counters"].as_object() {
+            for (k, n) in m {
+                *self.counters.entry(k.clone()).or_insert(0) += n.as_u64().unwrap_or(0);
+            }
+        }
+        if let Some(m) = v["sets"].as_object() {
+            for (k, arr) in m {
+                for i in arr.as_array().cloned().unwrap_or_default() {
+                    self.note(k, i.as_str().unwrap_or(""));
+                }
+            }
+        }
+    }
+
     /// Write evidence + replay files, print verdict lines, return the exit code.
     pub fn finish(mut self) -> i32 {
         let root = root();
